@@ -95,9 +95,17 @@ def run_property(mod, tier, seed, replay=None):
                 nontriv.add(nk)
             if len(samples) < 6 and k % max(1, len(cases) // 6) == 0:
                 samples.append({"case": case[:300], "impl": io[:300], "model": (mo or "")[:300]})
+    extra_stats = {}
     if hasattr(mod, "extra"):
-        for sig, msg, rp in mod.extra({"tier": tier, "seed": seed, "exes": exes}):
+        ctx = {"tier": tier, "seed": seed, "exes": exes, "stats": extra_stats, "unproved": unproved, "driver": drv,
+               "cases": cases}
+        for sig, msg, rp in mod.extra(ctx):
             viol.append((sig, msg, rp))
+        evaluations += int(extra_stats.get("evaluations", 0))
+        for k in extra_stats.get("nontrivial_keys", []):
+            nontriv.add(k)
+        samples.extend(extra_stats.get("samples", [])[:4])
+        validated += int(extra_stats.get("validated", 0))
     if disagreements:
         unproved.append({"what": "correspondence", "count": len(disagreements), "first": disagreements[:5]})
     # ---- decide
@@ -150,6 +158,7 @@ def run_property(mod, tier, seed, replay=None):
             "traces_validated_against_impl": validated,
             "correspondence_disagreements": len(disagreements),
             "configs": list(exes.keys()), "input_distribution": info,
+            "extra": {k: v for k, v in extra_stats.items() if k not in ("nontrivial_keys", "samples")},
             "unproved": unproved,
         },
         "assumptions": mod.ASSUMPTIONS, "wall_s": round(wall, 2),
